@@ -141,6 +141,57 @@ def nested_serverhello(R, depth, signer=None):
     return inner
 
 
+def flood(R, kind, n_keys):
+    """a map / set whose keys are chains of nested enum values over the registered enum classes, all ending in the same innermost
+    value: every key has the same hash (an enum hashes as its value)"""
+    S = R.S
+    enums = sorted((c for c in S.SerializableType.registry.values() if isinstance(c, type) and issubclass(c, S.SerializableEnum)),
+                   key=lambda c: c.type_id)[:6]
+    ids = [tag(c.type_id) for c in enums]
+    depth = 1
+    while len(ids) ** depth < n_keys:
+        depth += 1
+    body = b""
+    for i in range(n_keys):
+        k, x = b"", i
+        for _ in range(depth):
+            k += ids[x % len(ids)]
+            x //= len(ids)
+        body += k + i8(1) + (NULL if kind == "map" else b"")
+    return tag(17 if kind == "map" else 18) + i16(n_keys) + body
+
+
+def scaling_monitor(R, ctx):
+    """work grows with the size of the input, not with its square: for crafted families the CPU time of decoding an input of twice the
+    size is at most about twice as long (keys with one common hash in maps and sets; long flat sequences as the control)"""
+    families = [("flood-map", lambda n: flood(R, "map", n)), ("flood-set", lambda n: flood(R, "set", n)),
+                ("flat-seq", lambda n: tag(16) + i16(n) + i8(1) * n)]
+    for name, make in families:
+        rows = []
+        for n in ctx.scale([1500, 3000], [2000, 4000, 8000]):
+            data = make(n)
+            t0 = time.process_time()
+            try:
+                bounded(lambda: R.S.Serializable.loadb(data), 60.0)
+            except Hang:
+                ctx.failure("hang", "decoding %d bytes (%s, %d keys) did not finish within 60 s of CPU time" % (len(data), name, n),
+                            {"case": ["case mon", R.reg_line, "dec big"], "at": 1, "label": name, "bytes": len(data), "keys": n})
+                return
+            except Exception:
+                pass
+            rows.append((n, len(data), time.process_time() - t0))
+        ctx.count("input:" + name, len(rows))
+        for (n1, b1, d1), (n2, b2, d2) in zip(rows, rows[1:]):
+            if d2 > 0.6 and d2 > 3.0 * d1 + 0.2:
+                ctx.failure("superlinear", "%s: decoding %d keys (%d bytes) took %.2f s of CPU time, %d keys (%d bytes) took %.2f s: doubling the "
+                            "input multiplied the work by %.1f - the keys share one hash and every insertion compares with all earlier ones" %
+                            (name, n1, b1, d1, n2, b2, d2, d2 / max(d1, 1e-9)),
+                            {"case": ["case mon", R.reg_line, "dec big"], "at": 1, "label": name, "bytes": b2, "keys": n2,
+                             "how": "harness/props/c14.py flood(R, kind, n_keys)"})
+                return
+        ctx.notes.setdefault("scaling", {})[name] = [{"keys": n, "bytes": b, "cpu_s": round(d, 3)} for n, b, d in rows]
+
+
 def crafted(R):
     """(label, bytes, kw)"""
     S = R.S
@@ -541,6 +592,8 @@ def run(ctx):
                 break
             if mon.check_cost(label, b, ""):
                 break
+    if not ctx.failures:
+        scaling_monitor(R, ctx)
     if not ctx.failures:
         # client-side nesting of attacker-signed hellos: observed only (see ASSUMPTIONS)
         rows = []
